@@ -180,6 +180,14 @@ func c19GenDoc(r *xrand.Rand, idx int, tier string) *fw.Case {
 	var decls []tagDecl
 	for i := 0; i < nt; i++ {
 		d := tagDecl{name: fmt.Sprintf("@T%d", i)}
+		if r.Chance(1, 5) { // a declared tag that has the name an automatic path tag gets
+			d.name = []string{"@cats", "@dogs", "@a__b"}[r.Intn(3)]
+			for _, prev := range decls {
+				if prev.name == d.name {
+					d.name = fmt.Sprintf("@T%d", i)
+				}
+			}
+		}
 		if r.Bool() {
 			d.ann = []string{"Title of %d", "Title   of  %d", "Title\tof %d ", "  Title of %d"}[r.Intn(4)]
 			d.ann = fmt.Sprintf(d.ann, i)
@@ -417,6 +425,12 @@ func c19EvalDoc(t *fw.T, c *fw.Case) {
 			seg := firstSegment(path)
 			if len(got) != 1 {
 				t.Violation("auto-tag-count", fmt.Sprintf("interaction %q has no Tags anywhere but carries %v; input %s", key, got, input))
+				continue
+			}
+			if declared[got[0]] && got[0] == catalog.VerifTagName("/"+seg) {
+				// a declared tag has the very name the automatic tag of this segment gets: the two cannot be told apart
+				// by name (the declared title is checked above); nothing more to say about this interaction
+				t.Count("auto_tag_coincides_with_declared")
 				continue
 			}
 			if declared[got[0]] {
